@@ -872,3 +872,457 @@ Proof.
     replace (ns - 1 - (ns - 1 - i)) with i in TS by lia. replace (S (ns - 1 - i)) with (ns - i) in TS by lia.
     rewrite (nth_error_nth _ _ _ Ecf) in TS. exact TS.
 Qed.
+
+(** * S in SEVERAL runs (any number of start faces / components), no split event *)
+
+(** ** combinatorics of [tops] over balanced blocks ([BALC], EbSimEnc_proofs) *)
+Lemma tops_prefix A B : forall k, k <= length A -> tops (A ++ B) k = tops A k.
+Proof. induction k as [|k IH]; intros H; [reflexivity|]. cbn [tops]. rewrite nth_error_app1 by lia. rewrite IH by lia. reflexivity. Qed.
+
+(** the decoder's stack never runs empty under C / R / L and has two entries under S *)
+Definition nounder (Y : list Z) (k : nat) : Prop := forall j y, j < k -> nth_error Y j = Some y ->
+  (y <> 7%Z -> tops Y j <> []) /\ (y = 1%Z -> 2 <= length (tops Y j)).
+
+Lemma skipn_nth_cons {A} (l : list A) : forall j y, nth_error l j = Some y -> skipn j l = y :: skipn (S j) l.
+Proof. induction l as [|a l IH]; intros [|j] y H; cbn in *; try discriminate; [inversion H; reflexivity|]. apply IH. exact H. Qed.
+
+Lemma bal_len Yn : BALC Yn -> forall j, j <= length Yn -> Z.of_nat (length (tops Yn j)) = ideal (skipn j Yn) /\ nounder Yn j.
+Proof.
+  intros (B0 & B1). induction j as [|j IH]; intros Hj.
+  - cbn [tops skipn length]. split; [lia|]. intros j y Hjj. lia.
+  - destruct (IH ltac:(lia)) as (L & NU). destruct (nth_error Yn j) as [y|] eqn:Ey; [|apply nth_error_None in Ey; lia].
+    rewrite (skipn_nth_cons _ _ _ Ey) in L. cbn [ideal] in L. pose proof (B1 (S j) ltac:(lia)) as P1.
+    assert (NUj : (y <> 7%Z -> tops Yn j <> []) /\ (y = 1%Z -> 2 <= length (tops Yn j))).
+    { unfold delta in L. split; intros H.
+      - intro X. rewrite X in L. cbn [length] in L. destruct (y =? 1)%Z eqn:E1; [lia|]. destruct (y =? 7)%Z eqn:E7; lia.
+      - subst y. cbn [Z.eqb Pos.eqb] in L. lia. }
+    split.
+    + rewrite (tops_S _ _ _ Ey). unfold delta in L. destruct (y =? 7)%Z eqn:E7.
+      * assert (y = 7%Z) by lia. subst y. cbn [Z.eqb Pos.eqb] in L. cbn [length]. lia.
+      * destruct (y =? 1)%Z eqn:E1.
+        -- destruct NUj as (_ & N2). specialize (N2 ltac:(lia)). destruct (tops Yn j) as [|t0 [|t1 T]]; cbn [length tl] in *; lia.
+        -- destruct NUj as (N1 & _). specialize (N1 ltac:(lia)). destruct (tops Yn j) as [|t0 T]; [congruence|]. cbn [length tl] in *. lia.
+    + intros j' y' Hj' Ej'. destruct (Nat.eq_dec j' j) as [->|Nj]; [rewrite Ey in Ej'; inversion Ej'; subst y'; exact NUj|apply NU; auto; lia].
+Qed.
+
+Lemma bal_block Yn : BALC Yn -> Yn <> [] -> tops Yn (length Yn) = [length Yn - 1] /\ nounder Yn (length Yn).
+Proof.
+  intros B Ne. destruct (bal_len Yn B (length Yn) (le_n _)) as (L & NU). split; auto.
+  rewrite skipn_all in L. cbn [ideal] in L.
+  destruct (tops_head' Yn (length Yn)) as (T & ET). { destruct Yn; [congruence|cbn [length]; lia]. }
+  rewrite ET in L |- *. destruct T; [reflexivity|cbn [length] in L; lia].
+Qed.
+
+Lemma tops_shift A Y base : tops (A ++ Y) (length A) = base -> forall k, k <= length Y -> nounder Y k ->
+  tops (A ++ Y) (length A + k) = map (fun j => length A + j) (tops Y k) ++ base.
+Proof.
+  intros Eb. induction k as [|k IH]; intros Hk NU.
+  - rewrite Nat.add_0_r. cbn [tops map app]. exact Eb.
+  - replace (length A + S k) with (S (length A + k)) by lia. destruct (nth_error Y k) as [y|] eqn:Ey; [|apply nth_error_None in Ey; lia].
+    assert (Ek : nth_error (A ++ Y) (length A + k) = Some y).
+    { rewrite nth_error_app2 by lia. replace (length A + k - length A) with k by lia. exact Ey. }
+    rewrite (tops_S _ _ _ Ek), (tops_S _ _ _ Ey), IH by (try lia; intros j y' Hj; apply NU; lia).
+    destruct (NU k y ltac:(lia) Ey) as (N1 & N2).
+    destruct (y =? 7)%Z eqn:E7; [reflexivity|]. destruct (y =? 1)%Z eqn:E1.
+    + specialize (N2 ltac:(lia)). destruct (tops Y k) as [|t0 [|t1 T]]; cbn [length] in N2; try lia. reflexivity.
+    + specialize (N1 ltac:(lia)). destruct (tops Y k) as [|t0 T]; [congruence|]. reflexivity.
+Qed.
+
+Lemma nounder_app A Y base : tops A (length A) = base -> nounder A (length A) -> forall k, k <= length Y -> nounder Y k ->
+  nounder (A ++ Y) (length A + k).
+Proof.
+  intros Eb NA k Hk NY j y Hj Ej. destruct (lt_dec j (length A)) as [Lo|Hi].
+  - rewrite nth_error_app1 in Ej by lia. rewrite tops_prefix by lia. apply NA; auto.
+  - rewrite nth_error_app2 in Ej by lia. set (j' := j - length A) in *.
+    assert (NYj : nounder Y j') by (intros a b Ha; apply NY; unfold j' in *; lia).
+    replace j with (length A + j') by (unfold j'; lia).
+    rewrite (tops_shift A Y base) by (try (rewrite tops_prefix by lia; exact Eb); try exact NYj; unfold j'; lia).
+    destruct (NY j' y ltac:(unfold j'; lia) Ej) as (N1 & N2). split.
+    + intros H X. apply app_eq_nil in X. destruct X as [X _]. apply map_eq_nil in X. exact (N1 H X).
+    + intros H. rewrite app_length, map_length. specialize (N2 H). lia.
+Qed.
+
+(** the run structure in index form, for histories WITH S whose blocks are balanced *)
+Definition runs_idx2 (opp : list (option nat)) (IP : nat -> Prop) (bits : list bool) (inits P : list nat) (Y : list Z) : Prop :=
+  length P = length Y /\ length inits = cnt_true bits /\
+  length (tops Y (length Y)) = length bits /\ nounder Y (length Y) /\
+  forall i j, nth_error (tops Y (length Y)) i = Some j -> nth i (rev bits) false = true ->
+    j < length Y /\
+    exists ic, nth_error (rev inits) (cnt_true (firstn i (rev bits))) = Some ic /\ opp_at opp ic = Some (nth j P 0) /\ IP ic.
+
+Lemma RUNS2_idx opp IP (NE : Prop) bits inits P Y : NE -> RUNS2 opp IP NE bits inits P Y -> runs_idx2 opp IP bits inits P Y.
+Proof.
+  intros HNE. induction 1 as [|b bits inits inits' P Y Pn Yn R IH Np Ln Bl Hb].
+  - unfold runs_idx2. cbn. split; auto. split; auto. split; auto. split; [intros j y Hj; lia|]. intros i j X. destruct i; discriminate.
+  - destruct IH as (LP & LI & LT & NU & HF).
+    assert (NeY : Yn <> []) by (intro X; rewrite X in Ln; destruct Pn; [congruence|discriminate]).
+    destruct (bal_block Yn (Bl HNE) NeY) as (TB & NB).
+    set (N := length Yn) in *. assert (HN : 1 <= N) by (unfold N; destruct Yn; [congruence|cbn [length]; lia]).
+    assert (ET : tops (Yn ++ Y) (length (Yn ++ Y)) = map (fun j => N + j) (tops Y (length Y)) ++ [N - 1]).
+    { rewrite app_length. apply tops_shift; auto. rewrite tops_prefix by lia. exact TB. }
+    unfold runs_idx2. rewrite ET. split; [rewrite !app_length; lia|].
+    assert (LI' : length inits' = cnt_true (b :: bits)).
+    { unfold cnt_true in *. destruct b.
+      - destruct Hb as (ic & -> & _). rewrite count_occ_cons_eq by reflexivity. cbn [length]. lia.
+      - rewrite Hb. rewrite count_occ_cons_neq by discriminate. auto. }
+    split; auto. split; [rewrite app_length, map_length; cbn [length]; lia|].
+    split; [rewrite app_length; apply (nounder_app Yn Y [N - 1]); auto|].
+    intros i j Ei Bi. cbn [rev] in Bi. cbn [rev].
+    assert (Li : i < length (tops Y (length Y)) + 1).
+    { assert (X : i < length (map (fun j => N + j) (tops Y (length Y)) ++ [N - 1])) by (apply nth_error_Some; congruence).
+      rewrite app_length, map_length in X. cbn in X. lia. }
+    destruct (Nat.lt_ge_cases i (length (tops Y (length Y)))) as [Lo|Hi].
+    + rewrite nth_error_app1 in Ei by (rewrite map_length; auto). rewrite nth_error_map in Ei.
+      destruct (nth_error (tops Y (length Y)) i) as [j0|] eqn:Ej0; [|discriminate]. injection Ei as <-.
+      rewrite app_nth1 in Bi by (rewrite rev_length; lia).
+      destruct (HF i j0 Ej0 Bi) as (Hj0 & ic & A1 & A2 & A3).
+      split; [rewrite app_length; fold N; lia|].
+      exists ic. rewrite firstn_app, rev_length. replace (i - length bits) with 0 by lia. cbn [firstn]. rewrite app_nil_r.
+      split; [|split; auto].
+      * assert (X : cnt_true (firstn i (rev bits)) < length (rev inits)) by (apply nth_error_Some; congruence).
+        destruct b; [destruct Hb as (ic' & -> & _); cbn [rev]; rewrite nth_error_app1 by auto; auto|rewrite Hb; auto].
+      * rewrite app_nth2 by (fold N; lia). replace (N + j0 - length Pn) with j0 by (fold N in Ln; lia). auto.
+    + assert (Ei' : i = length (tops Y (length Y))) by lia. rewrite Ei' in *. clear Ei'.
+      rewrite nth_error_app2 in Ei by (rewrite map_length; auto). rewrite map_length, Nat.sub_diag in Ei. cbn in Ei. injection Ei as <-.
+      rewrite app_nth2 in Bi by (rewrite rev_length; lia). rewrite rev_length in Bi. replace (length (tops Y (length Y)) - length bits) with 0 in Bi by lia.
+      cbn in Bi. rewrite Bi in Hb. destruct Hb as (ic & Ei' & Eo & Ip).
+      split; [rewrite app_length; fold N; lia|].
+      exists ic. rewrite LT, firstn_app, rev_length, Nat.sub_diag. cbn [firstn]. rewrite app_nil_r, <- (rev_length bits), firstn_all, cnt_true_rev.
+      split; [|split; auto].
+      * rewrite Ei'. cbn [rev]. rewrite nth_error_app2 by (rewrite rev_length; lia). rewrite rev_length. replace (cnt_true bits - length inits) with 0 by lia. reflexivity.
+      * rewrite app_nth1 by (fold N in Ln; lia). rewrite Eo. f_equal. replace (N - 1) with (length Pn - 1) by (fold N in Ln; lia).
+        apply last_nth_nat; auto.
+Qed.
+
+(** ** the stack discipline of a trace with several runs, from the count  ideal (all symbols) = 1 - #bits *)
+Lemma rev_first_last {A} (t : list A) d a r : t = a :: r -> nth_error (rev t) 0 = Some (last t d).
+Proof.
+  intros E. assert (Ne : t <> []) by (rewrite E; discriminate). clear E.
+  induction t as [|x t IH]; [congruence|]. cbn [rev]. destruct t as [|y t'].
+  - reflexivity.
+  - change (last (x :: y :: t') d) with (last (y :: t') d). rewrite nth_error_app1.
+    + apply IH. discriminate.
+    + cbn [rev]. rewrite app_length. cbn. lia.
+Qed.
+
+Lemma madj_first opp t R : madj opp t R -> forall d, stack (cf_st (last t d)) = [Some (cf_corner (last t d))].
+Proof.
+  induction 1 as [cf0 S0|cf' cf r R L M IH|cf' cf r R L S0 M IH]; intros d; auto;
+    change (last (cf' :: cf :: r) d) with (last (cf :: r) d); apply IH.
+Qed.
+
+Definition ndpm (opp : list (option nat)) (osyms : list Z) (tr : list cfg) : Prop :=
+  (forall cf, nth_error tr 0 = Some cf -> stack (cf_st cf) = [Some (cf_corner cf)]) /\
+  (forall cf, nth_error tr (length tr - 1) = Some cf ->
+     pushed opp (hd 0%Z (rev osyms)) (cf_corner cf) (stack (cf_st cf)) = []) /\
+  forall i cf cf', nth_error tr i = Some cf -> nth_error tr (S i) = Some cf' -> mstep opp cf cf'.
+
+Theorem ndpm_of_count c2v opp nv niso ndeg o tr : eb_encode_tr c2v opp nv niso ndeg = EOk (o, tr) ->
+  ideal (rev (o_syms o)) = (1 - Z.of_nat (length (o_bits o)))%Z -> ndpm opp (o_syms o) tr.
+Proof.
+  intros Et Id.
+  destruct (trace_coherent _ _ _ _ _ _ _ Et) as [Lt Co].
+  destruct (trace_runs _ _ _ _ _ _ _ Et) as (t & -> & [->|(R & M & LR & cfN & r & Et' & SL)]).
+  { cbn [rev]. split; [|split].
+    - intros cf X. discriminate X.
+    - intros cf X. cbn in X. discriminate X.
+    - intros i cf cf' X. destruct i; discriminate X. }
+  pose proof (rev_first_last t cfN cfN r Et') as E0.
+  assert (S0 : syms (cf_st (last t cfN)) = []) by (destruct (Co 0 _ E0) as [X _]; exact X).
+  destruct (slink_slack _ _ _ _ SL) as (M1 & M2). rewrite Id in M1, M2. cbn [length] in M1, M2.
+  destruct (madj_strict opp t R M cfN r Et' ltac:(lia) S0) as (G & ZN).
+  split; [|split].
+  - intros cf E. rewrite E0 in E. inversion E; subst cf. apply (madj_first opp t R M).
+  - intros cf E. rewrite Et' in E. cbn [rev] in E. rewrite app_length in E. cbn [length] in E.
+    rewrite nth_error_app2 in E by lia. replace (length (rev r) + 1 - 1 - length (rev r)) with 0 in E by lia. cbn in E. inversion E; subst cf.
+    symmetry. apply M2. lia.
+  - intros i cf cf' E1 E2. exact (gadj_rev_nth _ _ G i cf cf' E1 E2).
+Qed.
+
+Section StkM.
+Variables (opp : list (option nat)) (Q : list nat) (osyms : list Z) (tr : list cfg).
+Let ns := length osyms.
+Let Y := rev osyms.
+Hypothesis Ltr : length tr = ns.
+Hypothesis Coh : forall i cf, nth_error tr i = Some cf ->
+  syms (cf_st cf) = rev (firstn i osyms) /\ cf_corner cf :: pcc (cf_st cf) = skipn (ns - 1 - i) (firstn ns Q).
+Hypothesis LQ : ns <= length Q.
+Hypothesis Steps : forall i cf cf', nth_error tr i = Some cf -> nth_error tr (S i) = Some cf' -> tstep opp cf cf'.
+Hypothesis NDP : ndpm opp osyms tr.
+
+Let cfg0 := mk_cfg 0 (mk_est [] [] [] 0%Z 0 [] [] [] [] []).
+Let cfi (i : nat) : cfg := nth i tr cfg0.
+
+Lemma cfiM_nth i : i < ns -> nth_error tr i = Some (cfi i).
+Proof. intros H. apply nth_error_nth'. lia. Qed.
+
+Lemma cornerM_Q i : i < ns -> cf_corner (cfi i) = nth (ns - 1 - i) Q 0.
+Proof.
+  intros H. destruct (Coh i _ (cfiM_nth i H)) as [_ C].
+  assert (E : nth 0 (cf_corner (cfi i) :: pcc (cf_st (cfi i))) 0 = nth 0 (skipn (ns - 1 - i) (firstn ns Q)) 0) by (rewrite C; auto).
+  cbn [nth] in E. rewrite E. rewrite nth_skipn'. rewrite Nat.add_0_r. rewrite <- (firstn_skipn ns Q) at 2. rewrite app_nth1; auto.
+  rewrite firstn_length_le; lia.
+Qed.
+
+Lemma symM_at i : S i < ns -> hd 0%Z (syms (cf_st (cfi (S i)))) = nth i osyms 0%Z.
+Proof.
+  intros H. destruct (Coh (S i) _ (cfiM_nth (S i) H)) as [C _]. rewrite C.
+  rewrite (firstn_S_nth osyms i (nth i osyms 0%Z)) by (apply nth_error_nth'; unfold ns in H; lia).
+  rewrite rev_app_distr. reflexivity.
+Qed.
+Lemma YM_at k : k < ns -> nth_error Y k = Some (nth (ns - 1 - k) osyms 0%Z).
+Proof.
+  intros H. unfold Y. rewrite nth_error_nth' with (d := 0%Z) by (rewrite rev_length; auto). f_equal.
+  rewrite rev_nth by auto. f_equal. unfold ns. lia.
+Qed.
+
+Lemma stacksM_some : forall i, i < ns -> stack (cf_st (cfi i)) <> [] /\ Forall (fun o => o <> None) (stack (cf_st (cfi i))).
+Proof.
+  destruct NDP as (N0 & _ & N1). induction i as [|i IH]; intros Hi.
+  - rewrite (N0 _ (cfiM_nth 0 Hi)). split; [discriminate|]. constructor; [discriminate|constructor].
+  - destruct (IH ltac:(lia)) as [A B].
+    pose proof (Steps i _ _ (cfiM_nth i ltac:(lia)) (cfiM_nth (S i) Hi)) as [T1 T2].
+    destruct (N1 i _ _ (cfiM_nth i ltac:(lia)) (cfiM_nth (S i) Hi)) as [E|(_ & E)].
+    2:{ rewrite E. split; [discriminate|]. constructor; [discriminate|constructor]. }
+    unfold sstep in E.
+    set (y := hd 0%Z (syms (cf_st (cfi (S i))))) in *.
+    assert (Tl : Forall (fun o => o <> None) (tl (stack (cf_st (cfi i))))) by (destruct (stack (cf_st (cfi i))); [constructor|inversion B; auto]).
+    unfold pushed in E. destruct (y =? 7)%Z eqn:E7.
+    + apply Z.eqb_eq in E7. specialize (T2 (or_introl E7)). split; [intro X; rewrite X in T2; discriminate|]. rewrite E. auto.
+    + destruct (y =? 1)%Z eqn:E1.
+      * apply Z.eqb_eq in E1. rewrite E. split; [discriminate|].
+        destruct T1 as [(y' & dead & L1 & _ & L3)|(y' & L1 & L2)].
+        -- assert (y' = y) by (unfold y; rewrite L1; reflexivity). subst y'. destruct (L3 E1). constructor; auto.
+        -- rewrite L2 in E. discriminate.
+      * rewrite E. auto.
+Qed.
+
+(** the last symbol of the encoding is E, and the last configuration has a one-entry stack *)
+Lemma lastM_E : 1 <= ns -> nth_error Y 0 = Some 7%Z /\ tl (stack (cf_st (cfi (ns - 1)))) = [].
+Proof.
+  intros Hn. destruct NDP as (_ & NL & _). assert (Hl : ns - 1 < ns) by lia.
+  pose proof (NL _ ltac:(rewrite Ltr; apply (cfiM_nth _ Hl))) as P.
+  destruct (stacksM_some _ Hl) as [Ne _].
+  assert (Ey : nth_error Y 0 = Some (hd 0%Z (rev osyms))).
+  { unfold Y. destruct (rev osyms) as [|y0 l] eqn:E; [|reflexivity].
+    apply (f_equal (@length _)) in E. rewrite rev_length in E. cbn in E. unfold ns in Hn. lia. }
+  rewrite Ey. unfold pushed in P. destruct (hd 0%Z (rev osyms) =? 7)%Z eqn:E7.
+  - apply Z.eqb_eq in E7. rewrite E7. auto.
+  - exfalso. destruct (hd 0%Z (rev osyms) =? 1)%Z; [discriminate|]. congruence.
+Qed.
+
+Definition nthQM (j : nat) : nat := nth j Q 0.
+
+(** the decoder's stack after k+1 symbols: the corner of configuration ns-1-k, the entries of its stack below the top, and
+    one entry for each LATER run (already decoded) *)
+Lemma tops_stackM : forall k, k < ns ->
+  let cf := cfi (ns - 1 - k) in
+  exists rest, map nthQM (tops Y (S k)) = cf_corner cf :: map the (tl (stack (cf_st cf))) ++ rest.
+Proof.
+  destruct NDP as (N0 & NL & N1). induction k as [|k IH]; intros Hk cf.
+  - assert (T1 : tops Y 1 = [0]).
+    { rewrite (tops_S Y 0 _ (YM_at 0 Hk)). cbn [tops]. destruct (_ =? 7)%Z; auto. destruct (_ =? 1)%Z; auto. }
+    exists []. rewrite T1. cbn [map]. unfold cf. replace (ns - 1 - 0) with (ns - 1) by lia.
+    destruct (lastM_E ltac:(lia)) as (_ & Tl0). rewrite Tl0. cbn. unfold nthQM. rewrite (cornerM_Q (ns - 1)) by lia. f_equal. f_equal. lia.
+  - set (i := ns - 1 - S k) in *.
+    assert (Hi : i < ns) by (unfold i; lia). assert (Hi' : S i < ns) by (unfold i; lia).
+    assert (Ei : ns - 1 - k = S i) by (unfold i; lia).
+    destruct (IH ltac:(lia)) as (rest' & IH'). clear IH. cbv zeta in IH'. rewrite Ei in IH'.
+    set (cf' := cfi (S i)) in *. fold cf.
+    pose proof (Steps i _ _ (cfiM_nth i Hi) (cfiM_nth (S i) Hi')) as [T1 T2]. fold cf cf' in T1, T2.
+    pose proof (N1 i _ _ (cfiM_nth i Hi) (cfiM_nth (S i) Hi')) as MS. fold cf cf' in MS.
+    assert (Ey : hd 0%Z (syms (cf_st cf')) = nth i osyms 0%Z) by (apply symM_at; auto).
+    unfold mstep, sstep in MS. rewrite Ey in MS, T2.
+    assert (EY : nth_error Y (S k) = Some (nth i osyms 0%Z)) by (rewrite (YM_at (S k) Hk); reflexivity).
+    rewrite (tops_S Y (S k) _ EY).
+    destruct (stacksM_some _ Hi) as [Ne As]. fold cf in Ne, As.
+    assert (Ec : nthQM (S k) = cf_corner cf) by (unfold nthQM, cf; rewrite (cornerM_Q _ Hi); f_equal; unfold i; lia).
+    set (y := nth i osyms 0%Z) in *.
+    destruct MS as [E|(E & S0)]; unfold pushed in E.
+    + (* inside a run *)
+      destruct (y =? 7)%Z eqn:E7.
+      * exists rest'. cbn [map]. rewrite Ec. f_equal. apply Z.eqb_eq in E7.
+        specialize (T2 (or_introl E7)). rewrite E in IH', T2. rewrite IH'.
+        destruct (tl (stack (cf_st cf))) as [|t1 r1]; [discriminate|]. cbn [hd] in T2. subst t1. reflexivity.
+      * destruct (y =? 1)%Z eqn:E1.
+        -- rewrite E in IH'. cbn [tl map app] in IH'.
+           destruct (tops Y (S k)) as [|t0 [|t1 T2']]; cbn [map] in IH'; try discriminate. injection IH' as I1 I2 I3.
+           exists rest'. cbn [tl map]. rewrite Ec. f_equal. exact I3.
+        -- rewrite E in IH'.
+           destruct (tops Y (S k)) as [|t0 T1']; cbn [map] in IH'; try discriminate. injection IH' as I1 I2.
+           exists rest'. cbn [tl map]. rewrite Ec. f_equal. exact I2.
+    + (* the last configuration of a run: everything was popped, the next run starts with one entry *)
+      rewrite S0 in IH'. cbn [tl map app] in IH'.
+      destruct (y =? 7)%Z eqn:E7.
+      * exists (cf_corner cf' :: rest'). cbn [map]. rewrite Ec, E, IH'. reflexivity.
+      * exfalso. destruct (y =? 1)%Z; [discriminate|]. congruence.
+Qed.
+
+(** the facts of an S symbol *)
+Lemma S_stack_factsM k : k < ns -> nth_error Y k = Some 1%Z ->
+  1 <= k /\ oat opp (next_c (nthQM k)) = Some (nthQM (k - 1)) /\
+  exists ja T, tops Y k = (k - 1) :: ja :: T /\ oat opp (prev_c (nthQM k)) = Some (nthQM ja).
+Proof.
+  intros Hk Ek. destruct (lastM_E ltac:(lia)) as (Y0 & _). destruct NDP as (N0 & NL & N1).
+  assert (K1 : 1 <= k). { destruct k; [congruence|lia]. }
+  set (i := ns - 1 - k). assert (Hi : i < ns) by (unfold i; lia). assert (Hi' : S i < ns) by (unfold i; lia).
+  assert (Ey : nth i osyms 0%Z = 1%Z). { rewrite (YM_at k Hk) in Ek. inversion Ek. reflexivity. }
+  set (cf := cfi i). set (cf' := cfi (S i)).
+  pose proof (Steps i _ _ (cfiM_nth i Hi) (cfiM_nth (S i) Hi')) as [T1 T2]. fold cf cf' in T1, T2.
+  pose proof (N1 i _ _ (cfiM_nth i Hi) (cfiM_nth (S i) Hi')) as MS. fold cf cf' in MS.
+  assert (Es : hd 0%Z (syms (cf_st cf')) = 1%Z) by (unfold cf'; rewrite symM_at; auto).
+  unfold mstep, sstep in MS. rewrite Es in MS, T2.
+  assert (E : stack (cf_st cf') = pushed opp 1%Z (cf_corner cf) (stack (cf_st cf))).
+  { destruct MS as [E|(E & _)]; [exact E|]. unfold pushed in E. cbn [Z.eqb Pos.eqb] in E. discriminate. }
+  unfold pushed in E. cbn [Z.eqb Pos.eqb] in E.
+  specialize (T2 (or_intror eq_refl)). rewrite E in T2. cbn [hd] in T2.
+  assert (Ec : cf_corner cf = nthQM k) by (unfold cf, nthQM; rewrite (cornerM_Q _ Hi); f_equal; unfold i; lia).
+  assert (Ec' : cf_corner cf' = nthQM (k - 1)) by (unfold cf', nthQM; rewrite (cornerM_Q _ Hi'); f_equal; unfold i; lia).
+  rewrite Ec in T2, E. rewrite Ec' in T2. split; auto. split; auto.
+  assert (Nl : oat opp (prev_c (nthQM k)) <> None).
+  { destruct T1 as [(y' & dead & L1 & _ & L3)|(y' & L1 & L2)].
+    - assert (y' = 1%Z) by (rewrite L1 in Es; exact Es). subst y'. rewrite Ec in L3. apply L3. reflexivity.
+    - rewrite L2 in E. discriminate. }
+  destruct (oat opp (prev_c (nthQM k))) as [lc|] eqn:El; [|congruence].
+  destruct (tops_stackM (k - 1) ltac:(lia)) as (rest & TS). cbv zeta in TS.
+  replace (ns - 1 - (k - 1)) with (S i) in TS by (unfold i; lia). replace (S (k - 1)) with k in TS by lia. fold cf' in TS.
+  rewrite E in TS. cbn [length tl map the app] in TS.
+  destruct (tops_head' Y k ltac:(unfold Y; rewrite rev_length; fold ns; lia)) as (T0 & ET). rewrite ET in TS |- *. cbn [map] in TS.
+  destruct T0 as [|ja T']; cbn [map] in TS; [discriminate|]. injection TS as L1 L2 L3.
+  exists ja, T'. split; auto.
+Qed.
+End StkM.
+
+(** ** THE ROUND TRIP ON THE CLASS "no split event": symbols C S L R E, any number of runs (start faces, components),
+    every remove_invalid_vertices.  The class is [o_events o = []] alone. *)
+Lemma noevent_script c2v opp nf nv niso ndeg o tr :
+  length c2v = 3 * nf -> opp_ok c2v opp -> (forall c, c < 3 * nf -> vtx c2v c < nv) -> one_fan c2v opp ->
+  eb_encode_tr c2v opp nv niso ndeg = EOk (o, tr) -> o_events o = [] ->
+  ndpm opp (o_syms o) tr /\
+  forall j, j < length (o_syms o) -> script_at c2v opp nf (o_pcc o) (rev (o_syms o)) j.
+Proof.
+  intros Hlen OK Hv FAN Et Ev.
+  pose proof (trace_refines_big_step_ok _ _ _ _ _ _ _ Et) as E.
+  destruct (trace_coherent _ _ _ _ _ _ _ Et) as [Lt Co].
+  pose proof (trace_steps _ _ _ _ _ _ _ Et) as Steps.
+  destruct (encode_facts_wf c2v opp nf nv niso ndeg o Hlen OK Hv FAN E) as (L & ND & Fk & _).
+  destruct (encode_runs2_wf c2v opp nf nv niso ndeg o Hlen OK Hv FAN E) as (Cnt & _). specialize (Cnt Ev).
+  pose proof (ndpm_of_count _ _ _ _ _ _ _ Et Cnt) as NDP. split; [exact NDP|].
+  destruct (eb_encode_total c2v opp nf nv niso ndeg Hlen OK Hv FAN) as [T1 T2].
+  destruct (Nat.eq_dec nf ndeg) as [Eq|Ne]; [rewrite (T1 Eq) in E; discriminate|].
+  destruct (T2 Ne) as (o' & E' & OO & _). rewrite E in E'. inversion E'; subst o'. clear E' T1 T2.
+  destruct OO as (_ & Rng & Comp & _ & _ & _ & _ & Sy & _).
+  set (Q := o_pcc o) in *. set (Y := rev (o_syms o)) in *. set (ns := length (o_syms o)) in *.
+  assert (LY : length Y = ns) by (unfold Y; apply rev_length).
+  assert (LQ : ns <= length Q) by lia.
+  intros j Hj.
+  destruct (nth_error Y j) as [y|] eqn:Ey; [|apply nth_error_None in Ey; lia].
+  assert (Hy : In y [0; 1; 3; 5; 7]%Z). { rewrite Forall_forall in Sy. apply Sy. apply in_rev. eapply nth_error_In; eauto. }
+  destruct (Z.eq_dec y 1) as [->|Ny].
+  + destruct (S_stack_factsM opp Q (o_syms o) tr Lt Co LQ Steps NDP j Hj Ey) as (K1 & Er & ja & T & ET & El).
+    destruct (Fk j 1%Z Ey) as (A & B & C & Dd). cbv zeta in Dd.
+    destruct Dd as [(D1 & _)|[(D1 & _)|[(D1 & _)|[(D1 & _)|(_ & SB)]]]]; try discriminate.
+    unfold script_at. fold Y. rewrite Ey. right. right. right. right.
+    split; auto. split; auto. split; [exact Er|]. split.
+    { unfold ncr, eco. cbn [rot]. destruct (opp_at opp (nth j Q 0)) as [o0|] eqn:Eo; auto. }
+    split; [exists ja, T; split; [exact ET|exact El]|]. exact SB.
+  + apply (efact_script c2v opp nf Q Y j y); auto; try lia.
+    clear - Hy Ny. unfold is_CERL. cbn [In] in Hy. lia.
+Qed.
+
+Theorem ebsim_roundtrip_noevent c2v opp nf nv niso ndeg o rm maxv :
+  length c2v = 3 * nf -> opp_ok c2v opp -> (forall c, c < 3 * nf -> vtx c2v c < nv) -> one_fan c2v opp ->
+  eb_encode c2v opp nv niso ndeg = EOk o -> o_events o = [] -> (cntv (rev (o_syms o)) <= maxv)%Z ->
+  let F := Z.of_nat (length (o_pcc o)) in
+  exists n s, D.eb_core (3 * F) maxv F rm (rev (o_syms o)) (o_events o) (D.bits_of_list (o_bits o)) = D.Ok (n, s) /\
+              eb_iso c2v opp (o_pcc o) (D.c2v s) (D.copp s).
+Proof.
+  intros Hlen OK Hv FAN E Ev Hm F.
+  destruct (big_step_has_trace _ _ _ _ _ _ E) as (tr & Et).
+  destruct (noevent_script c2v opp nf nv niso ndeg o tr Hlen OK Hv FAN Et Ev) as (_ & Sc).
+  destruct (encode_facts_wf c2v opp nf nv niso ndeg o Hlen OK Hv FAN E) as (L & ND & _ & _ & _ & DJ).
+  destruct (encode_runs2_wf c2v opp nf nv niso ndeg o Hlen OK Hv FAN E) as (_ & R2).
+  destruct (eb_encode_total c2v opp nf nv niso ndeg Hlen OK Hv FAN) as [T1 T2].
+  destruct (Nat.eq_dec nf ndeg) as [Eq|Ne]; [rewrite (T1 Eq) in E; discriminate|].
+  destruct (T2 Ne) as (o' & E' & OO & _). rewrite E in E'. inversion E'; subst o'. clear E' T1 T2.
+  destruct OO as (_ & Rng & Comp & _).
+  set (Q := o_pcc o) in *. set (Y := rev (o_syms o)) in *.
+  assert (LY : length Y = length (o_syms o)) by (unfold Y; apply rev_length).
+  assert (Rq : forall j, j < length Q -> nth j Q 0 < 3 * nf /\ is_degenerated c2v (nth j Q 0 / 3) = false).
+  { intros j Hj. rewrite Forall_forall in Rng. apply Rng. apply nth_In. auto. }
+  rewrite Ev.
+  apply (dec_roundtrip_rm c2v opp nf Hlen OK Q Rq ND (3 * F)%Z maxv rm Y eq_refl ltac:(lia) Hm FAN); auto.
+  - intros j Hj. apply Sc. lia.
+  - destruct (RUNS2_idx _ _ _ _ _ _ _ Ev R2) as (_ & _ & LT & _ & HF).
+    rewrite rev_length in LT. rewrite !rev_involutive in HF.
+    apply start_ok_of_idx; auto.
+Qed.
+
+Theorem ebsim_roundtrip_noevent_ct faces t o rm : ct_create faces = Some t -> eb_encode_ct t = EOk o -> o_events o = [] ->
+  (Z.of_nat (3 * length faces + length (ct_vcorn t)) < 2147483648)%Z ->
+  ((3 * o_nfaces o) / 2 <= (o_nverts o * (o_nverts o - 1)) / 2)%Z ->
+  verts_fit o ->
+  exists n s, eb_decode_of o rm = D.Ok (n, s) /\ eb_iso (ct_c2v t) (ct_opp t) (o_pcc o) (D.c2v s) (D.copp s).
+Proof.
+  intros H E Ev Sz G3 VF.
+  destruct (ct_create_wf _ _ H) as (L & OK & Hv & FAN & _).
+  destruct (eb_encode_ct_counts faces t o H E) as (_ & _ & _ & _ & _ & Nf & _).
+  destruct (eb_encode_ct_guards faces t o rm H E Sz G3) as (Eq & _).
+  { rewrite Ev. cbn. lia. }
+  rewrite Eq. rewrite <- Nf.
+  apply (ebsim_roundtrip_noevent (ct_c2v t) (ct_opp t) (length faces) (length (ct_vcorn t)) (ct_niso t) (ct_ndeg t) o rm); auto.
+Qed.
+
+(** the simulation along the trace for the class "no split event": as [sim3]; the decoder's stack additionally holds, below the
+    entries of the current run, one entry [rest] for every run the decoder has already finished (the later runs of the encoder) *)
+Definition sim4 (c2v : list nat) (opp : list (option nat)) (Q : list nat) (Y : list Z) (ns : nat) (NC maxv : Z) (cf : cfg) (d : D.st) : Prop :=
+  let i := length (syms (cf_st cf)) in
+  let k := ns - i in
+  SIM c2v opp Q k d /\
+  cf_corner cf :: pcc (cf_st cf) = skipn (k - 1) (firstn ns Q) /\
+  D.stack d = map (fun j => dco j 0) (tops Y k) /\
+  (exists rest, map (fun j => nth j Q 0) (tops Y k) = cf_corner cf :: map the (tl (stack (cf_st cf))) ++ rest) /\
+  Draco.Proofs.Edgebreaker_proofs.W NC maxv (Z.of_nat k) d /\ Draco.Proofs.Edgebreaker_fan_proofs.FI (Z.of_nat k) d /\
+  D.events d = [].
+
+Theorem ebsim_trace_noevent c2v opp nf nv niso ndeg o tr rm maxv :
+  length c2v = 3 * nf -> opp_ok c2v opp -> (forall c, c < 3 * nf -> vtx c2v c < nv) -> one_fan c2v opp ->
+  eb_encode_tr c2v opp nv niso ndeg = EOk (o, tr) -> o_events o = [] -> (cntv (rev (o_syms o)) <= maxv)%Z ->
+  let ns := length (o_syms o) in
+  let NC := (3 * Z.of_nat (length (o_pcc o)))%Z in
+  length tr = ns /\
+  forall i cf, nth_error tr i = Some cf ->
+    length (syms (cf_st cf)) = i /\
+    exists d, D.sym_loop NC maxv rm (Z.of_nat ns) (firstn (ns - i) (rev (o_syms o))) 0 (D.init_st []) = D.Ok d /\
+              sim4 c2v opp (o_pcc o) (rev (o_syms o)) ns NC maxv cf d.
+Proof.
+  intros Hlen OK Hv FAN Et Ev Hm ns NC.
+  pose proof (trace_refines_big_step_ok _ _ _ _ _ _ _ Et) as E.
+  destruct (trace_coherent _ _ _ _ _ _ _ Et) as [Lt Co]. fold ns in Lt, Co. split; auto.
+  pose proof (trace_steps _ _ _ _ _ _ _ Et) as Steps.
+  destruct (noevent_script c2v opp nf nv niso ndeg o tr Hlen OK Hv FAN Et Ev) as (NDP & Sc). fold ns in Sc.
+  destruct (encode_facts_wf c2v opp nf nv niso ndeg o Hlen OK Hv FAN E) as (L & ND & _).
+  destruct (eb_encode_total c2v opp nf nv niso ndeg Hlen OK Hv FAN) as [T1 T2].
+  destruct (Nat.eq_dec nf ndeg) as [Eq|Ne]; [rewrite (T1 Eq) in E; discriminate|].
+  destruct (T2 Ne) as (o' & E' & OO & _). rewrite E in E'. inversion E'; subst o'. clear E' T1 T2.
+  destruct OO as (_ & Rng & Comp & _).
+  rewrite rev_length in L. fold ns in L.
+  intros i cf Ecf. destruct (Co i cf Ecf) as [C1 C2].
+  assert (Hi : i < ns). { rewrite <- Lt. apply nth_error_Some. congruence. }
+  assert (Li : length (syms (cf_st cf)) = i). { rewrite C1, rev_length, firstn_length_le; auto. unfold ns in Hi. lia. }
+  split; auto.
+  assert (Rq : forall j, j < length (o_pcc o) -> nth j (o_pcc o) 0 < 3 * nf /\ is_degenerated c2v (nth j (o_pcc o) 0 / 3) = false).
+  { intros j Hj. rewrite Forall_forall in Rng. apply Rng. apply nth_In. auto. }
+  assert (HYQ : length (rev (o_syms o)) <= length (o_pcc o)) by (rewrite rev_length; fold ns; lia).
+  destruct (sym_loop_sim c2v opp nf Hlen OK (o_pcc o) Rq ND NC maxv rm (rev (o_syms o)) eq_refl HYQ Hm FAN) with (k := ns - i)
+    as (d & Ed & HS & HW & HF & Hnv & Hev & _ & Hst).
+  - rewrite rev_length. fold ns. lia.
+  - intros j Hj. apply Sc. lia.
+  - exists d. rewrite rev_length in Ed. fold ns in Ed. split; auto. unfold sim4. rewrite Li. fold ns.
+    split; auto. split. { rewrite C2. f_equal. lia. }
+    split; auto. split; auto.
+    assert (LQ : ns <= length (o_pcc o)) by lia.
+    destruct (tops_stackM opp (o_pcc o) (o_syms o) tr Lt Co LQ Steps NDP (ns - 1 - i) ltac:(fold ns; lia)) as (rest & TS). cbv zeta in TS. fold ns in TS.
+    replace (ns - 1 - (ns - 1 - i)) with i in TS by lia. replace (S (ns - 1 - i)) with (ns - i) in TS by lia.
+    rewrite (nth_error_nth _ _ _ Ecf) in TS. exists rest. exact TS.
+Qed.
